@@ -2,6 +2,7 @@
 import asyncio
 import contextvars
 import os
+import threading
 from typing import Any, Dict, List, Optional, Tuple
 
 import icontract
@@ -267,6 +268,7 @@ def run_preempt(k: int, mode: int, va: bool, vb: bool, nested: bool) -> Tuple[bo
     thread - modelled as another context - runs a whole call B of the same function."""
     k, mode = conc(k, 0, 2), conc(mode, 0, 3)
     nested = True if nested else False
+    va, vb = (True if va else False), (True if vb else False)
     with untraced():
         w = _CACHE.get("sfunc")
         if w is None:
@@ -293,10 +295,21 @@ def run_preempt(k: int, mode: int, va: bool, vb: bool, nested: bool) -> Tuple[bo
                 ctx_b_holder.append(contextvars.copy_context())
             cb = ctx_b_holder[0]
             w.hook = None  # B runs undisturbed
-            try:
-                state["b"] = ("ret", cb.run(w.call, (1, vb)))
-            except Tag as err:
-                state["b"] = ("violation", err.label)
+
+            def call_b() -> None:
+                try:
+                    state["b"] = ("ret", cb.run(w.call, (1, vb)))
+                except Tag as err:
+                    state["b"] = ("violation", err.label)
+            if mode == 3:
+                # a context copied while the parent is inside this transition belongs to ANOTHER thread: B really runs
+                # in one (the library may tell the owner of a mark by its thread / task)
+                with untraced():
+                    t = threading.Thread(target=call_b)
+                    t.start()
+                    t.join()
+            else:
+                call_b()
             w.hook = hook
 
     w.hook = hook
@@ -317,6 +330,169 @@ def run_preempt(k: int, mode: int, va: bool, vb: bool, nested: bool) -> Tuple[bo
     witness = fired and not vb
     note(("preempt", k, mode, tuple(w.log)), witness)
     return ok, witness
+
+
+SPAWN_SHAPES = ["sfunc_pre_post", "sfunc_pre_only", "afunc_pre_post", "afunc_pre_only", "smethod_invariant",
+                "amethod_invariant"]
+SPAWN_WHERE = ["precondition", "body", "postcondition"]
+
+
+def _spawn_scenario(shape: str, where: str, vb: bool) -> Tuple[Any, Any, Any]:
+    """A parent call of a contracted callable starts - from inside its precondition / body / postcondition - a child
+    (a real thread with a copied context for sync callables, a real asyncio task for async ones).  The child calls the same
+    function (or a public method of the same object) with valid / violating arguments at once, and once more after
+    the parent call has returned.  Returns (parent outcome, child's first outcome, child's later outcome)."""
+    is_async = shape.startswith("a")
+    is_method = "method" in shape
+    out = {"first": None, "later": None}  # type: Dict[str, Any]
+    box = {}  # type: Dict[str, Any]
+
+    def judge(fn: Any) -> Any:
+        try:
+            return ("ret", fn())
+        except Tag as err:
+            return ("violation", err.label)
+
+    async def ajudge(fn: Any) -> Any:
+        try:
+            return ("ret", await fn())
+        except Tag as err:
+            return ("violation", err.label)
+
+    if not is_async:
+        def spawn(tag: str) -> None:
+            if tag != where or "ctx" in box:
+                return
+            box["ctx"] = contextvars.copy_context()
+            t = threading.Thread(target=lambda: out.__setitem__("first", box["ctx"].run(judge, box["child_call"])))
+            t.start()
+            t.join()
+
+        def pre(x: Any) -> Any:
+            spawn("precondition")
+            return x > 0
+
+        def post(result: Any) -> Any:
+            spawn("postcondition")
+            return True
+        if is_method:
+            class K:
+                def __init__(self) -> None:
+                    self.v = 1
+
+                def work(self, x: Any) -> Any:
+                    spawn("body")
+                    return "res"
+
+                def set_v(self, v: Any) -> Any:
+                    self.v = v
+                    return "set"
+            K.work = icontract.require(pre, error=lambda: Tag("pre"))(K.work)  # type: ignore
+            K = icontract.invariant(lambda self: self.v > 0, error=lambda: Tag("inv"))(K)  # type: ignore
+            obj = K()
+
+            def child_call() -> Any:
+                try:
+                    return obj.set_v(1 if vb else -1)
+                finally:
+                    obj.__dict__["v"] = 1  # (the child repairs the object so that the parent's verdict is not affected)
+            box["child_call"] = child_call
+            parent = lambda: obj.work(1)  # noqa: E731
+        else:
+            def f(x: Any) -> Any:
+                spawn("body")
+                return "res"
+            if shape == "sfunc_pre_post":
+                f = icontract.ensure(post, error=lambda: Tag("post"))(f)
+            f = icontract.require(pre, error=lambda: Tag("pre"))(f)
+            box["child_call"] = lambda: f(1 if vb else -1)
+            parent = lambda: f(1)  # noqa: E731
+        p_out = judge(parent)
+        if "ctx" in box:
+            t = threading.Thread(target=lambda: out.__setitem__("later", box["ctx"].run(judge, box["child_call"])))
+            t.start()
+            t.join()
+        return p_out, out["first"], out["later"]
+
+    # async: real tasks on a real event loop
+    async def main() -> Any:
+        gate = asyncio.Event()
+
+        async def child() -> None:
+            out["first"] = await ajudge(box["child_call"])
+            await gate.wait()  # ... stays alive until the parent call has returned
+            out["later"] = await ajudge(box["child_call"])
+
+        async def spawn(tag: str) -> None:
+            if tag != where or "task" in box:
+                return
+            box["task"] = asyncio.ensure_future(child())
+            while out["first"] is None:
+                await asyncio.sleep(0)
+
+        async def pre(x: Any) -> Any:
+            await spawn("precondition")
+            return x > 0
+
+        async def post(result: Any) -> Any:
+            await spawn("postcondition")
+            return True
+        if is_method:
+            class K:
+                def __init__(self) -> None:
+                    self.v = 1
+
+                async def work(self, x: Any) -> Any:
+                    await spawn("body")
+                    return "res"
+
+                async def set_v(self, v: Any) -> Any:
+                    self.v = v
+                    return "set"
+            K.work = icontract.require(pre, error=lambda: Tag("pre"))(K.work)  # type: ignore
+            K = icontract.invariant(lambda self: self.v > 0, error=lambda: Tag("inv"))(K)  # type: ignore
+            obj = K()
+
+            async def child_call() -> Any:
+                try:
+                    return await obj.set_v(1 if vb else -1)
+                finally:
+                    obj.__dict__["v"] = 1
+            box["child_call"] = child_call
+            parent = lambda: obj.work(1)  # noqa: E731
+        else:
+            async def f(x: Any) -> Any:
+                await spawn("body")
+                return "res"
+            if shape == "afunc_pre_post":
+                f = icontract.ensure(post, error=lambda: Tag("post"))(f)
+            f = icontract.require(pre, error=lambda: Tag("pre"))(f)
+            box["child_call"] = lambda: f(1 if vb else -1)
+            parent = lambda: f(1)  # noqa: E731
+        p_out = await ajudge(parent)
+        gate.set()
+        if "task" in box:
+            await box["task"]
+        return p_out
+    p_out = asyncio.run(main())
+    return p_out, out["first"], out["later"]
+
+
+def run_spawn(shape_i: int, where_i: int, vb: bool) -> Tuple[bool, bool]:
+    shape_i, where_i = conc(shape_i, 0, len(SPAWN_SHAPES) - 1), conc(where_i, 0, 2)
+    vb = True if vb else False
+    shape, where = SPAWN_SHAPES[shape_i], SPAWN_WHERE[where_i]
+    if where == "postcondition" and not shape.endswith("pre_post"):
+        return True, False
+    with untraced():
+        p_out, first, later = _spawn_scenario(shape, where, vb)
+    if "method" in shape:
+        want = ("ret", "set") if vb else ("violation", "inv")
+    else:
+        want = ("ret", "res") if vb else ("violation", "pre")
+    ok = p_out == ("ret", "res") and first == want and later == want
+    note(("spawn", shape, where, vb, first, later), not vb)
+    return ok, not vb
 
 
 ALL = ["mode", "s0", "s1", "s2", "s3", "s4", "s5", "s6", "s7", "s8", "v0", "v1", "v2"]
@@ -352,4 +528,12 @@ def harnesses(tier: str) -> List[H]:
                         "(thread) runs a complete call B; 4 context-inheritance modes: fresh, copied before / after the parent "
                         "ran contracted code, and (mode 3) copied WHILE the parent is inside that transition - the last "
                         "one inside a condition is the known finding KF-C12-1", family_size=3 * 4 * 4))
+    sp = [I("shape_i", 0, len(SPAWN_SHAPES) - 1), I("where_i", 0, 2), B("vb")]
+    out.append(H("spawn_from_inside", bind(run_spawn, (), ["shape_i", "where_i", "vb"], {}, ["shape_i", "where_i", "vb"]), sp,
+                 tiers=(tier,), timeout=600,
+                 family="a parent call of {} starts, from inside its {}, a child with a copy of its context (a real thread for "
+                        "sync callables, a real asyncio task for async ones); the child makes a valid / violating call of the "
+                        "same function (a public method of the same object) at once and again after the parent has returned; "
+                        "run natively - the solver only exhausts the selector product".format(SPAWN_SHAPES, SPAWN_WHERE),
+                 family_size=len(SPAWN_SHAPES) * 3 * 2))
     return out
